@@ -120,3 +120,10 @@ Definition mon_bestmove (g : game) (m : move) : bool :=
 (* uniquely named entry points for the extracted driver *)
 Definition spec_has_legal (g : game) : bool := match legal_moves (abs g) with [] => false | _ => true end.
 Definition spec_legal_line (g : game) (ms : list smove) : bool := legal_line (abs g) ms.
+
+(* C11 oracle entry points *)
+Definition spec_mates_in (n : N) (g : game) : bool := mates_in (N.to_nat n) (abs g).
+Definition spec_mated_in (n : N) (g : game) : bool := mated_in (N.to_nat n) (abs g).
+(* does the line end in checkmate, and after how many plies *)
+Fixpoint line_end (p : pos) (ms : list smove) : pos := match ms with [] => p | m :: r => line_end (apply p m) r end.
+Definition spec_line_mates (g : game) (ms : list smove) : bool := checkmate (line_end (abs g) ms).
